@@ -212,6 +212,10 @@ def same(eng, a, b):
     return ('unknown', None)
 
 
+def render_both(i):
+    return (str(i), i.__str__('att_syntax binutils'))
+
+
 def interleave():
     A = E.A
     for b in INTERLEAVE_BYTES:
@@ -319,6 +323,27 @@ def run_dec(job, res):
                     return ('CEX', 'repeat:lift-differs:%s' % name, '%s: the second lift returns a different assignment list' % name, E.witness_bytes(eng, d, m)[:i1.l + 2])
                 if st != 'unsat':
                     return ('ABORT', 'lift equality unknown')
+        # rendering, at the path witness (concrete): both syntaxes twice - the text must not depend on an earlier rendering
+        # and the instruction object must stay as decoded
+        try:
+            iw = E.A.x86mnemo.dis(bytes(w) + b'\x90' * 4)
+        except PathAbort:
+            raise
+        except Exception:
+            iw = None
+        if iw is not None:
+            sw = isnap(iw)
+            try:
+                t1 = render_both(iw)
+                t2 = render_both(iw)
+            except PathAbort:
+                raise
+            except Exception:
+                t1 = t2 = None       # C10's subject
+            if t1 != t2:
+                return ('CEX', 'repeat:render-differs:%s' % name, '%s: rendering the same instruction object twice gives %r then %r' % (name, t1, t2), w)
+            if same(eng, sw, isnap(iw)) is not None:
+                return ('CEX', 'frame:render-modifies-instruction:%s' % name, '%s: rendering changed the instruction object' % name, w)
         return ('OK', name)
     eng, rs = E.explore(ejob, on_path, max_paths=60000, max_seconds=600)
     res['paths'] += eng.stats['paths']
@@ -445,8 +470,14 @@ def jobs(tier, seed):
         # ... and under a segment override, an address-size and a rep prefix (prefixes select other decoder paths, e.g. the loop that tags operands with the segment)
         ej = E.make_jobs(tier, seed, prefix_sets=[()], sib='min', per_signature=False) + \
             E.make_jobs(tier, seed, prefix_sets=[(0x66,), (0x64,), (0x67,), (0xF3,)], sib='one', per_signature=True)
+        # MMX / SSE rows under their mandatory prefixes (the prefix selects the mnemonic: other decoder and rendering paths)
+        have = set((j[0], j[1], j[2]) for j in ej)
+        for ps in ((0x66,), (0xF2,), (0xF3,)):
+            for j in E.make_jobs(tier, seed, prefix_sets=[ps], sib='one', per_signature=False):
+                if E._row_is_mmx(j[1], j[2]) and (j[0], j[1], j[2]) not in have:
+                    ej.append(j)
     else:
-        ej = E.make_jobs(tier, seed, prefix_sets=[(), (0x66,), (0x67,), (0xF3,), (0x2E,), (0x64,)], sib='min', per_signature=False)
+        ej = E.make_jobs(tier, seed, prefix_sets=[(), (0x66,), (0x67,), (0xF3,), (0xF2,), (0x2E,), (0x64,)], sib='min', per_signature=False)
     out = [('dis12', j, tier) for j in ej]
     out.append(('asm12', tier, list(ASM_LINES)))
     return out
@@ -496,6 +527,12 @@ if D['kind'] == 'dis':
         c12d.interleave()
         i2 = A.x86mnemo.dis(b)
         if show(i2) != s1: bad = True; print(bytes(bs).hex(), 'second dis():', show(i2), 'first:', s1)
+        if i2 is not None:
+            try:
+                t1 = c12d.render_both(i2); t2 = c12d.render_both(i2)
+                if t1 != t2: bad = True; print(bytes(bs).hex(), 'rendered twice:', t1, 'then', t2)
+            except Exception as ex: print('rendering raises', type(ex).__name__)
+            if show(i2) != s1: bad = True; print(bytes(bs).hex(), 'rendering changed the instruction object:', show(i2), 'was', s1)
         if liftable and i2 is not None and lift(i2) != a1: bad = True; print(bytes(bs).hex(), 'second lift differs')
         fp1 = c12d.fingerprint_tables(A, R, SEM)
         df = c12d.fp_diff(fp0, fp1)
